@@ -1152,12 +1152,21 @@ where
             match index_twice(&mut self.g.nodes, a.index(), b.index()) {
                 Pair::None => return Err(if a > b { a } else { b }),
                 Pair::One(an) => {
+                    if an.weight.is_none() {
+                        return Err(a);
+                    }
                     edge.next = an.next;
                     an.next[0] = edge_idx;
                     an.next[1] = edge_idx;
                 }
                 Pair::Both(an, bn) => {
                     // a and b are different indices
+                    if an.weight.is_none() {
+                        return Err(a);
+                    }
+                    if bn.weight.is_none() {
+                        return Err(b);
+                    }
                     edge.next = [an.next[0], bn.next[1]];
                     an.next[0] = edge_idx;
                     bn.next[1] = edge_idx;
